@@ -21,7 +21,7 @@ use std::time::{Duration, Instant};
 pub const DEF: PropDef = PropDef {
     id: "C08",
     level: "fault_enumeration",
-    rule: "case = (lineage formula built through the real LineageStore, seed probabilities from {0,0.2,0.5,0.9,1}, seed kinds, HybridConfig, clock-fault index): formulas = all monotone DNFs (with shared seeds and subsumed clauses), And(Or,Or) nestings (two depths), every single-Not variant of those, the same with seeds {0,1} in an exclusive group, with one seed id absent from the snapshot, and constant/complement specials, over <=4 seeds (quick: all 127 DNFs over 3 seeds, the 575 DNFs with <=3 clauses over 4; thorough: all 32767 DNFs over 4 seeds, 2-clause DNFs and And(Or,Or) over 5 and 6 seeds, window-DNF families over 6, 8 and 12 seeds); probability vectors: 5 fixed spreads per formula (two dyadic, one uniformly 0.2) and, for the DNFs over 3 seeds, all 125 assignments; configs = every valid combination of k_initial{1,2} x k_max{k_initial,4} x k_growth 2 x threshold{0,.3,.5,.9,1} x band{0,.2} x gain floor{0,.05} x node budget{2,8,1000} (+7 invalid configs) for the core families, fixed sub-grids of 30 / 12 of these configurations elsewhere (counters setups_* / evals_* say how much each family got); for each (formula,probabilities,config) the fault-free run of evaluate_hybrid_with_clock is executed with a counting clock, then one run per clock reading n in [0,readings) and per fault mode (single jump past all deadlines at reading n / runaway clock from reading n); compile_lineage_to_sdd_with_clock likewise per reading and per node budget 2..=needed+1; evaluate_topk for k in {0,1,2,3,4,8} x node budgets; Reasoner::infer_new_facts_with_hybrid on 21 acyclic positive programs against possible-worlds enumeration over a naive fixpoint. Round-3 additions: families exclusive2 (TWO exclusive groups {0,1} and {2,3}, each completed to mass 1 by its own filler member; all DNFs with <= 2 clauses and all And(Or,Or) over 4 seeds, single-Not variants (quick: every 8th); probability splits incl. members of probability 0 and 1: quick 2, thorough 5) and exclusive3 (one group of three {0,1,2} + an independent seed; quick 2 splits, thorough 4 x 2), both under the 5-configuration set Excl (thresholds {.3,.5,.9} at node budget 1000, threshold .5 at node budgets 8 and 16: lineages over exclusive groups never enter the top-k phase); family dnf_k: all 127 DNFs over 3 seeds (all-0.5; the 18 irredundant ones also under a 0/.5/1 vector) and irredundant DNFs with 2..3 (thorough 4) clauses over 4 seeds under the grid Extra = 9 controller growth paths (k_initial,k_max,k_growth) in {(1,4,3),(2,6,3),(1,3,2),(3,3,2),(3,8,2),(8,8,2),(1,16,2),(8,64,2),(1,64,3)} x thresholds {.125,.375,.5,.75} with (band,floor) = (.02,1e-4) and thresholds {.25,.5} with (0,0) + HybridConfig::default() with 1 s budgets at thresholds {.5,.375,.125} = 57 configurations; quick tier also runs window DNFs over 6 and 8 seeds (thorough: 6, 8, 12) under the growth paths on thresholds {.375,.75} + the default configuration; third clock mode 'step' (every reading advances time by 1 ms and both budgets are j ms, for every j in [1, readings+1]: the SDD deadline expires strictly inside the compile, also after a top-k expiry), run for every configuration of the round-3 sets and every third configuration of the 12- and 30-configuration sets (thorough: all of those, and the quarter of the 240-grid with band > 0 and floor > 0); evaluate_topk additionally with time budgets 0 and 1 ns; end-to-end: one program with two exclusive groups and five programs with negation as failure in the top stratum (negated seed, absent fact, derived fact, triple asserted twice, member of an exclusive group), reference = stratified model per world. Oracle: exact truth-table probability p* (exclusive group = exactly one member true, member i with probability p_i, group mass 1; a missing seed = every completion p in [0,1] must be respected): Exact => |p-p*|<=1e-9; every reported lower/upper bound brackets p* (1e-9); Alert => p* >= threshold, NoAlert => p* < threshold (no slack when all probabilities are in {0,.5,1}, i.e. arithmetic is exact; 1e-9 otherwise); NeedsExact/Indeterminate always acceptable. non-trivial = (formula, probabilities, seed kinds) with 0 < p* < 1 and >= 2 distinct seeds in the formula; distinct = distinct such triples; outcomes = distinct (entry point, status, decision, reason, fault reached, fault changed the result)",
+    rule: "case = (lineage formula built through the real LineageStore, seed probabilities from {0,0.2,0.5,0.9,1}, seed kinds, HybridConfig, clock-fault index): formulas = all monotone DNFs (with shared seeds and subsumed clauses), And(Or,Or) nestings (two depths), every single-Not variant of those, the same with seeds {0,1} in an exclusive group, with one seed id absent from the snapshot, and constant/complement specials, over <=4 seeds (quick: all 127 DNFs over 3 seeds, the 575 DNFs with <=3 clauses over 4; thorough: all 32767 DNFs over 4 seeds, 2-clause DNFs and And(Or,Or) over 5 and 6 seeds, window-DNF families over 6, 8 and 12 seeds); probability vectors: 5 fixed spreads per formula (two dyadic, one uniformly 0.2) and, for the DNFs over 3 seeds, all 125 assignments; configs = every valid combination of k_initial{1,2} x k_max{k_initial,4} x k_growth 2 x threshold{0,.3,.5,.9,1} x band{0,.2} x gain floor{0,.05} x node budget{2,8,1000} (+7 invalid configs) for the core families, fixed sub-grids of 30 / 12 of these configurations elsewhere (counters setups_* / evals_* say how much each family got); for each (formula,probabilities,config) the fault-free run of evaluate_hybrid_with_clock is executed with a counting clock, then one run per clock reading n in [0,readings) and per fault mode (single jump past all deadlines at reading n / runaway clock from reading n); compile_lineage_to_sdd_with_clock likewise per reading and per node budget 2..=needed+1; evaluate_topk for k in {0,1,2,3,4,8} x node budgets; Reasoner::infer_new_facts_with_hybrid on 21 acyclic positive programs against possible-worlds enumeration over a naive fixpoint. Round-3 additions: families exclusive2 (TWO exclusive groups {0,1} and {2,3}, each completed to mass 1 by its own filler member; all DNFs with <= 2 clauses and all And(Or,Or) over 4 seeds, single-Not variants (quick: every 8th); probability splits incl. members of probability 0 and 1: quick 2, thorough 5) and exclusive3 (one group of three {0,1,2} + an independent seed; quick 2 splits, thorough 4 x 2), both under the 5-configuration set Excl (thresholds {.3,.5,.9} at node budget 1000, threshold .5 at node budgets 8 and 16: lineages over exclusive groups never enter the top-k phase); family dnf_k: all 127 DNFs over 3 seeds (all-0.5; the 18 irredundant ones also under a 0/.5/1 vector) and irredundant DNFs with 2..3 (thorough 4) clauses over 4 seeds under the grid Extra = 9 controller growth paths (k_initial,k_max,k_growth) in {(1,4,3),(2,6,3),(1,3,2),(3,3,2),(3,8,2),(8,8,2),(1,16,2),(8,64,2),(1,64,3)} x thresholds {.125,.375,.5,.75} with (band,floor) = (.02,1e-4) and thresholds {.25,.5} with (0,0) + HybridConfig::default() with 1 s budgets at thresholds {.5,.375,.125} = 57 configurations; quick tier also runs window DNFs over 6 and 8 seeds (thorough: 6, 8, 12) under the growth paths on thresholds {.375,.75} + the default configuration; third clock mode 'step' (every reading advances time by 1 ms and both budgets are j ms, for every j in [1, readings+1]: the SDD deadline expires strictly inside the compile, also after a top-k expiry), run for every configuration of the exclusive-group set, every second configuration of the other round-3 sets and every sixth configuration of the 12- and 30-configuration sets (thorough: all of those, and the quarter of the 240-grid with band > 0 and floor > 0); evaluate_topk additionally with time budgets 0 and 1 ns; end-to-end: one program with two exclusive groups and five programs with negation as failure in the top stratum (negated seed, absent fact, derived fact, triple asserted twice, member of an exclusive group), reference = stratified model per world. Oracle: exact truth-table probability p* (exclusive group = exactly one member true, member i with probability p_i, group mass 1; a missing seed = every completion p in [0,1] must be respected): Exact => |p-p*|<=1e-9; every reported lower/upper bound brackets p* (1e-9); Alert => p* >= threshold, NoAlert => p* < threshold (no slack when all probabilities are in {0,.5,1}, i.e. arithmetic is exact; 1e-9 otherwise); NeedsExact/Indeterminate always acceptable. non-trivial = (formula, probabilities, seed kinds) with 0 < p* < 1 and >= 2 distinct seeds in the formula; distinct = distinct such triples; outcomes = distinct (entry point, status, decision, reason, fault reached, fault changed the result)",
     assumptions: &[
         "reference: truth-table summation over all worlds (harness/src/reference/lineage_tt.rs), self-tested on hand-computed cases incl. the repository's own fixtures (0.64, 0.36, 0.2)",
         "exclusive groups are only generated with total mass 1 (an unreferenced filler member completes the group), where the exactly-one constraint of compile_lineage_to_sdd and the annotated-disjunction reading coincide",
@@ -39,7 +39,7 @@ pub const DEF: PropDef = PropDef {
     ],
     run,
     replay,
-    cap_s: (45, 1800),
+    cap_s: (55, 1800),
     shards: 0,
 };
 
@@ -1148,7 +1148,8 @@ fn enumerate_jobs(thorough: bool) -> Vec<Job> {
         if !thorough && si >= 2 {
             continue;
         }
-        for f in dnf4_le2.iter().chain(nested_and_or(4).iter()) {
+        // quick: the second split (members of probability 0 / 0.9) meets every second formula
+        for f in dnf4_le2.iter().chain(nested_and_or(4).iter()).step_by(if thorough || si == 0 { 1 } else { 2 }) {
             add("exclusive2", f, 4, sp.to_vec(), g2(), Cfgs::Excl, si == 0 || thorough);
         }
         for f in neg4.iter().step_by(if thorough { 1 } else { 8 }) {
@@ -1180,7 +1181,7 @@ fn enumerate_jobs(thorough: bool) -> Vec<Job> {
             }
             let mut p = sp.to_vec();
             p.push(p3);
-            for f in &forms3 {
+            for f in forms3.iter().step_by(if thorough || si == 0 { 1 } else { 2 }) {
                 add("exclusive3", f, 4, p.clone(), vec![vec![0, 1, 2]], Cfgs::Excl, si == 0 || thorough);
             }
         }
@@ -1359,13 +1360,14 @@ fn run_job(out: &mut ShardOut, job: &Job, sets: &ConfigSets, tally: &mut Tally) 
         Cfgs::OnlyK => &sets.only_k,
     };
     for (ci, cfg) in cfgs.iter().enumerate() {
-        // the stepping clock: for every configuration of the round-3 sets; for every third
-        // configuration of the Tiny / Reduced sets (thorough: all of them); in the 240-configuration
+        // the stepping clock: for every configuration of the exclusive-group set, every second one of
+        // the other round-3 sets, every sixth of the Tiny / Reduced sets (thorough: all of them); in the 240-configuration
         // grid only in the thorough tier, on the quarter with band > 0 and gain floor > 0
         let step = match job.cfgs {
             Cfgs::Full => sets.thorough && cfg.band_epsilon > 0.0 && cfg.marginal_gain_floor > 0.0,
-            Cfgs::Tiny | Cfgs::Reduced => sets.thorough || ci % 3 == 1,
-            Cfgs::Extra | Cfgs::TinyK | Cfgs::OnlyK | Cfgs::Excl => true,
+            Cfgs::Tiny | Cfgs::Reduced => sets.thorough || ci % 6 == 1,
+            Cfgs::Extra | Cfgs::TinyK | Cfgs::OnlyK => sets.thorough || ci % 2 == 0,
+            Cfgs::Excl => true,
         };
         hybrid_all_faults(out, s, &b, cfg, true, step, tally);
     }
